@@ -20,6 +20,22 @@ class ToolError(Exception):
     pass
 
 
+def purge_jobs(max_age_s=5400):
+    """job files (harness inputs, raw logs, projected traces) are only needed while their suite runs"""
+    now = time.time()
+    jd = os.path.join(CACHE, "jobs")
+    for fn in os.listdir(jd):
+        fp = os.path.join(jd, fn)
+        try:
+            if now - os.path.getmtime(fp) > max_age_s:
+                os.unlink(fp)
+        except OSError:
+            pass
+
+
+purge_jobs()
+
+
 def log(*a):
     print("[check]", *a, file=sys.stderr, flush=True)
 
